@@ -83,9 +83,10 @@ PwResolve(ok) ==
   /\ UNCHANGED <<scen, pwCalls, accepted, hashOk, via, lost>>
 
 \* Tor answers AUTHCHALLENGE: with the right server hash, or with something that does not prove knowledge of
-\* the cookie (another hash, a prefix of the right one, an empty one, the right one with extra bytes), ...
+\* the cookie (another hash, a prefix of the right one, an empty one, the right one with extra bytes, the hash and
+\* nonce it overheard on an earlier connection of the same controller process - "replay": nonces are fresh), ...
 ReplyChallenge(k) ==
-  /\ phase = "challenge" /\ k \in {"ok", "wronghash", "shorthash", "emptyhash", "longhash", "malformed", "err"}
+  /\ phase = "challenge" /\ k \in {"ok", "wronghash", "replay", "shorthash", "emptyhash", "longhash", "malformed", "err"}
   /\ IF k = "ok" THEN hashOk' = TRUE /\ Send("AUTHENTICATE", "proof") /\ phase' = "authenticate" /\ UNCHANGED <<ready, nready>>
      ELSE Fire("err") /\ UNCHANGED <<wire, hashOk>>
   /\ UNCHANGED <<scen, pwCalls, accepted, via, lost>>
@@ -121,7 +122,7 @@ Next ==
   \/ Start
   \/ \E k \in {"ok", "noauth", "err"} : ReplyPI(k)
   \/ \E ok \in BOOLEAN : PwResolve(ok) \/ ReplyAuth(ok) \/ ReplyQuery(ok)
-  \/ \E k \in {"ok", "wronghash", "shorthash", "emptyhash", "longhash", "malformed", "err"} : ReplyChallenge(k)
+  \/ \E k \in {"ok", "wronghash", "replay", "shorthash", "emptyhash", "longhash", "malformed", "err"} : ReplyChallenge(k)
   \/ \E clean \in BOOLEAN : Disconnect(clean)
 
 Spec == Init /\ [][Next]_vars
